@@ -39,6 +39,25 @@ T = {
  'C16-m2': ('C16', 'repeat loop breaks on result.failures/errors instead of result.shouldStop (unexpected successes are not in either)',
             '-x --repeat N>=2 and an unexpected success as first bad outcome',
             'C16 quick: C16:test-after-stop', 'caught at once'),
+ 'C02-m1': ('C02', 'find.find_suites: `except BaseException` narrowed to `except Exception` around module import',
+            'a test module whose import raises SystemExit(0/None) (e.g. sys.exit(0) when an optional dependency is missing)',
+            'C02 quick: C02:verdict (exit status 0 although the module could not be imported)',
+            'MISSED at first (import failures were only scripted as ordinary exceptions); caught after the import-failure family got SystemExit(0/None/3) and other classes'),
+ 'C02-m2': ('C02', 'spawn_layer_in_subprocess: report completeness check tightened to len(names) != nfail+nerr',
+            'a layer run in a subprocess + any line on the child\'s fd 2 after its complete report (here: any fd-2 noise at all, since names = every line after the header)',
+            'C02 quick: C02:verdict (failed although nothing went wrong), noise pairs', 'caught at once'),
+ 'C12-m1': ('C12', 'process.SubProcess.report prints error names before failure names while the parent still reads failures first',
+            'a layer run in a subprocess with both a failure and an error, -v',
+            'C12 quick: C12:failure-list, C12:modes-lists-differ', 'caught at once'),
+ 'C12-m2': ('C12', 'run_tests: failures/errors/skipped bookkeeping moved after the --repeat loop (only the last iteration counts)',
+            '--repeat N>=2 and a bad or skipped outcome in a non-final iteration',
+            'C12 quick: C12:failure-list, C12:total-failures, C12:total-skipped, C12:error-list, C12:total-errors', 'caught at once'),
+ 'C03-m1': ('C03', 'shuffle.Shuffle.global_setup: a resumed child shuffles only its own layer (fresh RNG stream position)',
+            '--shuffle-seed S + a layer run in a child (-j N or resume) that is not first in sorted layer-name order, >= 2 tests',
+            'C03 quick: C03:list-order-differs-from-run (bundle list / -j)', 'caught at once'),
+ 'C03-m2': ('C03', 'find.tests_from_suite prunes a whole TestSuite whose level exceeds --at-level (inner declarations can lower it)',
+            'an outer suite with level K containing a class / inner suite / test declaring level k < K, --at-level N with k <= N < K',
+            'C03 quick: C03:list-set, C03:missing', 'caught at once'),
 }
 
 
